@@ -81,13 +81,21 @@ class SubmitOnOk(nfa.Spec):
         return st
 
 
-def check_submit_on_ok(ctx, fx, rule, entry, entries):
+def check_submit_on_ok(ctx, fx, rule, entry, entries, any_path=False):
+    """any_path: also accept the waiting closure (for message submissions; stop / restart must use the forcing one)"""
     f = fx.fn(entry)
-    if f is None or f.get("is_async"):
+    if f is None:
         return
+    if f.get("is_async"):
+        kids = [c for c in fx.children_of(entry) if c["kind"] == "coroutine"]
+        if len(kids) != 1:
+            ctx.viol(rule, "ok-means-submitted:" + entry, "async body of %s not found" % entry, fn=entry, site=f["loc"])
+            return
+        f = kids[0]
     b = ctx.body(fx, f)
+    traits = (FORCE_TRAIT, TX_TRAIT) if any_path else (FORCE_TRAIT,)
     A = nfa.Alphabet(
-        calls=[("fsend", lambda t: t.get("trait") == FORCE_TRAIT), ("delegate", lambda t: (t.get("callee") in entries and t.get("callee") != entry))],
+        calls=[("fsend", lambda t: t.get("trait") in traits), ("delegate", lambda t: (t.get("callee") in entries and t.get("callee") != entry))],
         adts={"core::ops::control_flow::ControlFlow": "Res", "core::result::Result": "Res", "core::option::Option": "Option"}, retval=True)
     n = nfa.build(b, A, fx, depth=2)
     viols, ps = nfa.check(n, SubmitOnOk())
